@@ -315,6 +315,60 @@ fn check_socket(count: &u32, case: &mut Case) -> Result<(), Fail> {
             std::thread::sleep(std::time::Duration::from_millis(5));
         }
     }
+    // the one-shot resolver: it waits for responses with id 0 and at least one answer; feed it generated
+    // responses about the very name it asks for while it is waiting
+    let resolver_panic: std::sync::Arc<std::sync::Mutex<Option<meter::Panic>>> = Default::default();
+    {
+        let rp = resolver_panic.clone();
+        let resolver_thread = std::thread::Builder::new().name("vp-resolver".into()).spawn(move || {
+            let r = meter::catch(|| {
+                if let Ok(mut resolver) = simple_mdns::sync_discovery::OneShotMdnsResolver::new() {
+                    resolver.set_query_timeout(std::time::Duration::from_millis(250));
+                    for _ in 0..6 {
+                        let _ = resolver.query_service_address_and_port("vp-bait.local");
+                        let _ = resolver.query_service_address("vp-bait.local");
+                    }
+                }
+            });
+            if let Err(p) = r {
+                *rp.lock().unwrap() = Some(p);
+            }
+        });
+        let bait_name = AName::from_strs(&["vp-bait", "local"]);
+        let t_end = std::time::Instant::now() + std::time::Duration::from_millis(2600);
+        let mut k = 0u32;
+        while std::time::Instant::now() < t_end {
+            // answers about the bait name: every kind of RDATA, also empty RDATA under the asked types
+            let rd = match k % 7 {
+                0 => ARData::Empty { code: 33 },
+                1 => ARData::Empty { code: 1 },
+                2 => default_typed(33),
+                3 => default_typed(1),
+                4 => default_typed(16),
+                5 => ARData::Unknown { code: 33 + 1000, data: Bytes(vec![1]) },
+                _ => strat.new_tree(&mut runner).map(|t| match t.current() { Dg::ServiceResponse(v) => v.first().map(|x| x.1.clone()).unwrap_or(ARData::Empty { code: 28 }), _ => ARData::Empty { code: 28 } }).unwrap_or(ARData::Empty { code: 28 }),
+            };
+            let mut p = APacket { id: 0, flags: 0x8400, ..Default::default() };
+            p.answers.push(ARecord { name: bait_name.clone(), class: 1, cache_flush: k % 2 == 0, ttl: 5, rdata: rd });
+            if k % 3 == 0 {
+                p.additionals.push(ARecord { name: bait_name.clone(), class: 1, cache_flush: false, ttl: 5, rdata: ARData::Empty { code: 1 } });
+            }
+            let bytes = encode_message(&p, &EncOpts::compressed());
+            if sock.send_to(&bytes, "224.0.0.251:5353").is_ok() {
+                sent += 1;
+            }
+            k += 1;
+            std::thread::sleep(std::time::Duration::from_millis(4));
+        }
+        if let Ok(t) = resolver_thread {
+            let _ = t.join();
+        }
+    }
+    if let Some(p) = resolver_panic.lock().unwrap().take() {
+        if p.in_library() {
+            return Err(Fail::new(p.signature(), format!("the one-shot resolver panicked while responses about the name it asked for were arriving: {}:{}: {}", p.file, p.line, p.msg)));
+        }
+    }
     case.extra_evals = sent;
     case.nontrivial = true;
     case.class("socket-tier-ran");
@@ -336,7 +390,7 @@ fn check_socket(count: &u32, case: &mut Case) -> Result<(), Fail> {
 pub fn def() -> CheckDef {
     CheckDef {
         id: "C14",
-        rule: "(1) pure pipeline, proptest: a store pre-loaded by 0..7 random operations (as C13) plus a canary record; sequences of 1..19 datagrams drawn from {empty, 1..11 bytes, random bytes, reference encodings with hostile names and 0..8 mutations, valid queries, valid responses, responses under the watched service with hostile instance labels (non-UTF-8, 63 bytes, dots), 1000..9000-byte datagrams}; each datagram goes, step for step, through what the three receive loops do (responder: header peek with unwrap_or(true), parse, build_reply, build_bytes_vec_compressed; discovery: parse, add_response_to_resources under a real RwLock write guard with and without an on_discovery channel, or build_reply; application: get_known_services; one-shot resolver: header peek on a 4096-byte buffer, parse, answer scan). Oracle: no panic, lock not poisoned, every reply parses, the canary is still answered. (2) real sockets, sampled: a real SimpleMdnsResponder and ServiceDiscovery on loopback multicast receive 300 (6000 thorough) generated datagrams between two probe queries; violation iff a library thread panicked or the responder stops answering; skipped (no claim) when multicast is unusable. Non-trivial = a datagram shorter than 12 bytes or a parsed datagram with hostile names",
+        rule: "(1) pure pipeline, proptest: a store pre-loaded by 0..7 random operations (as C13) plus a canary record; sequences of 1..19 datagrams drawn from {empty, 1..11 bytes, random bytes, reference encodings with hostile names and 0..8 mutations, valid queries, valid responses, responses under the watched service with hostile instance labels (non-UTF-8, 63 bytes, dots), 1000..9000-byte datagrams}; each datagram goes, step for step, through what the three receive loops do (responder: header peek with unwrap_or(true), parse, build_reply, build_bytes_vec_compressed; discovery: parse, add_response_to_resources under a real RwLock write guard with and without an on_discovery channel, or build_reply; application: get_known_services; one-shot resolver: header peek on a 4096-byte buffer, parse, answer scan). Oracle: no panic, lock not poisoned, every reply parses, the canary is still answered. (2) real sockets, sampled: a real SimpleMdnsResponder and ServiceDiscovery on loopback multicast receive 300 (6000 thorough) generated datagrams between two probe queries, and a real OneShotMdnsResolver issues queries while generated responses about the name it asks for (every RDATA kind, also empty RDATA under the asked types) arrive; violation iff a library thread panicked or the responder stops answering; skipped (no claim) when multicast is unusable. Non-trivial = a datagram shorter than 12 bytes or a parsed datagram with hostile names",
         assumptions: vec![
             "the pure pipeline copies the loop bodies (simple_responder.rs, service_discovery.rs, oneshot_resolver.rs); an edit to the loops themselves is only visible to the socket section",
             "reader/writer interleavings on the shared store are not explored",
